@@ -201,6 +201,9 @@ def create_allocation_list(context, data, consumers):
                 context, consumer_uuid)
             for allocation in allocations:
                 allocation.used = 0
+                # Keep the consumer whose generation was checked by
+                # inspect_consumers(), not the freshly re-read one.
+                allocation.consumer = consumer
                 allocation_objects.append(allocation)
 
     return allocation_objects
@@ -443,6 +446,11 @@ def _set_allocations_for_consumer(req, schema):
         allocations = alloc_obj.get_all_by_consumer_id(context, consumer_uuid)
         for allocation in allocations:
             allocation.used = 0
+            # Use the consumer whose generation was checked above, not the
+            # one just re-read along with the allocations: the generation
+            # compare-and-swap in replace_all() must be against the
+            # generation the caller supplied.
+            allocation.consumer = consumer
             allocation_objects.append(allocation)
     else:
         # If the body includes an allocation for a resource provider
